@@ -413,6 +413,34 @@ class Engine:
         finally:
             s.pop()
 
+    def feasible_values(self, st, v, limit):
+        """all concrete integers v can take under the path condition of st (complete enumeration), or None when
+        there are more than `limit` of them or the solver does not decide."""
+        if not isinstance(v, z3.ExprRef) or not v.is_int() or st.pc is False:
+            return None
+        s = self.solver
+        s.push()
+        try:
+            if st.pc is not True:
+                s.add(st.pc)
+            for a in self.axioms:
+                s.add(a)
+            out = []
+            while True:
+                self.stats['feas_queries'] += 1
+                r = s.check()
+                if r == z3.unsat:
+                    return out
+                if r != z3.sat or len(out) >= limit:
+                    return None
+                c = s.model().eval(v, model_completion=True)
+                if not z3.is_int_value(c):
+                    return None
+                out.append(c.as_long())
+                s.add(v != c)
+        finally:
+            s.pop()
+
     def simp(self, v):
         if isinstance(v, z3.ExprRef):
             v = z3.simplify(v)
@@ -677,7 +705,13 @@ class Engine:
             raise Unsupported('aggregate access at symbolic offset')
         cands = list(range(0, o.size - n + 1, n))
         if len(cands) > 256:
-            raise Unsupported('symbolic offset into a %d-byte object' % o.size)
+            # large object (e.g. a table of structs indexed by a merged loop result): keep only the slots the path
+            # condition allows.  Any feasible offset that is not a valid slot violates the in-bounds obligation below.
+            feas = self.feasible_values(st, off, 256)
+            if feas is None:
+                raise Unsupported('symbolic offset into a %d-byte object' % o.size)
+            valid = set(cands)
+            cands = sorted(c for c in feas if c in valid)
         inb = z3.Or([off == c for c in cands]) if cands else False
         self.oblige(st, 'ub', 'out-of-bounds or misaligned %s at symbolic offset of %s (size %d)' % (
             'store' if store is not None else 'load', o.name or o.kind, o.size), inb, where)
@@ -685,12 +719,26 @@ class Engine:
         if store is None:
             res = None
             for c in reversed(cands):
-                v = self.load_cell(st, o, c, ty, where)
+                try:
+                    v = self.load_cell(st, o, c, ty, where)
+                except Unsupported:
+                    # a slot that cannot be read with this type (e.g. inside a wider cell of a struct) only matters
+                    # if the offset can take that value
+                    if self.feasible(p_and(st.pc, off == c)):
+                        raise
+                    continue
                 res = v if res is None else ite(off == c, v, res)
+            if res is None:
+                raise Unsupported('no readable slot at symbolic offset (%s)' % where)
             return res
         o = st.wobj(p.obj)
         for c in cands:
-            old = self.load_cell(st, o, c, ty, where)
+            try:
+                old = self.load_cell(st, o, c, ty, where)
+            except Unsupported:
+                if self.feasible(p_and(st.pc, off == c)):
+                    raise
+                continue
             self.store_val(st, o, c, ty, ite(off == c, store, old))
         return None
 
@@ -1349,6 +1397,9 @@ class Engine:
             a = args[0]
             if is_conc(a):
                 return abs(a)
+            if isinstance(a, Quot):   # |n/d| = |n|/|d| stays a lazily divided value (std::isinf/isnan of a quotient)
+                an, ad = [abs(x) if is_conc(x) else z3.If(zreal(x) >= 0, zreal(x), -zreal(x)) for x in (a.n, a.d)]
+                return Quot(an, ad)
             return z3.If(a >= 0, a, -a)
         if base == 'sqrt':
             return self.libm(st, 'sqrt', args, where)
@@ -1454,6 +1505,15 @@ class Engine:
                     return Fraction(rn, rd)
                 if self.concrete_inputs is not None:
                     return Fraction(math.sqrt(float(a)))   # validation runs: the value the native libm returns
+            if isinstance(a, Quot):
+                # lazily divided argument n/d (d != 0 on the path): same root, stated without a division
+                # (r >= 0, r*r*d == n; sign test cross-multiplied) - z3 gives up on the form with '/'
+                ge0 = self.simp(self.quot_cmp('ge', a, 0))
+                self.oblige(st, 'fpspecial', 'sqrt of negative number', ge0, where)
+                st.pc = p_and(st.pc, ge0)
+                r = self.fresh('real', 'sqrt')
+                st.pc = p_and(st.pc, z3.And(r >= 0, r * r * zreal(a.d) == zreal(a.n)))
+                return r
             za = zreal(a)
             self.oblige(st, 'fpspecial', 'sqrt of negative number', za >= 0, where)
             st.pc = p_and(st.pc, za >= 0)
@@ -1461,10 +1521,17 @@ class Engine:
             # algebraic number; reusing its variable keeps the number of algebraic unknowns small
             memo = self.uf.setdefault('__sqrt_memo', {}) if (self.opts.get('sqrt_memo') and is_conc(a)) else None
             r = memo.get(Fraction(a)) if memo is not None else None
+            # opt-in (registry symex={'sqrt_memo_sym': True}): sqrt is a function, so a call on the structurally identical
+            # symbolic argument reuses the variable of the earlier call (its defining constraint is re-asserted on this path below)
+            msym = self.uf.setdefault('__sqrt_memo_sym', []) if (self.opts.get('sqrt_memo_sym') and not is_conc(a)) else None
+            if r is None and msym is not None:
+                r = next((rr for zz, rr in msym if zz.eq(za)), None)
             if r is None:
                 r = self.fresh('real', 'sqrt')
                 if memo is not None:
                     memo[Fraction(a)] = r
+                if msym is not None:
+                    msym.append((za, r))
             st.pc = p_and(st.pc, z3.And(r >= 0, r * r == za))
             return r
         if name in ('floor', 'ceil', 'trunc', 'rint', 'nearbyint', 'round'):
@@ -1692,7 +1759,7 @@ class Engine:
                 ca, cb = oa.cells.get(off), ob.cells.get(off)
                 if ca is not None and cb is not None:
                     if ca[0] != cb[0]:
-                        raise Unsupported('merge of differently sized cells')
+                        raise Unsupported('merge of differently sized cells (%s +%d: %d / %d bytes)' % (oa.name or oa.kind, off, ca[0], cb[0]))
                     o.cells[off] = (ca[0], ca[1] if ca[1] is cb[1] else ite(cond, ca[1], cb[1]))
                 else:
                     have = ca or cb
@@ -2069,6 +2136,7 @@ class Engine:
 
 # ------------------------------------------------------------------ discharge
 _TASKS = []
+_SEED = 0
 _TMO = 60000
 _AX = ()
 _INPUTS = []
@@ -2101,6 +2169,10 @@ def _solve(ti):
     mv = None
     s = z3.SimpleSolver() if mode == 'smt' else z3.Solver()
     s.set('timeout', _TMO)
+    if _SEED:
+        s.set('random_seed', _SEED)
+        z3.set_param('nlsat.seed', _SEED)
+        z3.set_param('sat.random_seed', _SEED)
     for a in _AX:
         s.add(a)
     s.add(q)
@@ -2230,8 +2302,23 @@ def discharge(eng, obls, timeout_ms=60000, axioms=(), jobs=8, max_cases=4096, mo
             o.cases = 1
     _TASKS, _TMO, _AX, _INPUTS = tasks, timeout_ms, tuple(axioms), eng.inputs
     import os as _os
+    global _SEED
+    _SEED = 0
     results = _run_tasks(len(tasks), jobs, timeout_ms / 1000.0 * 1.15 + 3.0,
                          None if _os.environ.get('VF_CROSSCHECK') else owner)
+    # second chance for the cases no strategy decided: other random seeds, twice the time (z3 is erratic on
+    # nonlinear queries; an undecided obligation makes the whole check inconclusive)
+    decided_cases = set(owner[ti] for ti, r, dt, mv in results if r in ('sat', 'unsat'))
+    retry = [ti for ti in range(len(tasks)) if owner[ti] not in decided_cases]
+    if retry and not _os.environ.get('VF_NO_RETRY'):
+        _SEED = 7
+        _TMO = timeout_ms * 2
+        sub = retry
+        _TASKS = [tasks[ti] for ti in sub]
+        res2 = _run_tasks(len(sub), jobs, _TMO / 1000.0 * 1.15 + 3.0, [owner[ti] for ti in sub])
+        results = [x for x in results if owner[x[0]] in decided_cases] + [(sub[ti], r, dt, mv) for ti, r, dt, mv in res2]
+        _TASKS = tasks
+        eng.retried_cases = len(set(owner[ti] for ti in sub))
     # portfolio of two z3 strategies per query (default tactic pipeline / plain SMT core): a case is decided
     # by whichever answers; contradictory answers make the obligation inconclusive
     per_case = {}
